@@ -146,11 +146,21 @@ class Mailbox:
         # if the nameplate is still allocated we'll get a foreign-key
         # failure when trying to delete the mailbox, so get rid of
         # those first
-        db.execute("DELETE FROM `nameplate_sides` WHERE `nameplates_id` IN"
-                   " (SELECT `id` FROM `nameplates` WHERE `mailbox_id`=?)",
-                   (self._mailbox_id,))
-        db.execute("DELETE FROM `nameplates` WHERE `mailbox_id`=?",
-                   (self._mailbox_id,))
+        for np_row in db.execute("SELECT * FROM `nameplates`"
+                                 " WHERE `mailbox_id`=?",
+                                 (self._mailbox_id,)).fetchall():
+            npid = np_row["id"]
+            np_side_rows = db.execute("SELECT * FROM `nameplate_sides`"
+                                      " WHERE `nameplates_id`=?",
+                                      (npid,)).fetchall()
+            db.execute("DELETE FROM `nameplate_sides` WHERE `nameplates_id`=?",
+                       (npid,))
+            db.execute("DELETE FROM `nameplates` WHERE `id`=?", (npid,))
+            if self._usage_db:
+                # the nameplate is retired here, so it gets its usage record
+                # here (release_nameplate and prune do the same)
+                self._app._summarize_nameplate_and_store(np_side_rows, when,
+                                                         pruned=False)
         # remove mailbox content
         db.execute("DELETE FROM `messages` WHERE `mailbox_id`=?",
                    (self._mailbox_id,))
